@@ -38,8 +38,8 @@ META = dict(
         quick='all 16 fields; scalar shapes int, float; pair shapes (int,'
         'int), (float,float), (int,float), (float,int); window [-4,12]; 24 '
         'special concrete members per field; __eq__ over 3 fields x 3 values',
-        thorough='same window, plus triples of fields set simultaneously '
-        '(cross-field independence) and longer CrossHair budgets'),
+        thorough='same shapes with longer CrossHair budgets (900 s per '
+        'condition)'),
     outside='finite values outside [-4, 12] are covered by CrossHair for '
     'float shapes only; bool values and equal endpoints of share / budget '
     'ranges are don\'t-care (documentation silent)',
